@@ -75,6 +75,13 @@ def candidates_for(built, prims, leaves):
     return [(repr(sorted(l.items(), key=repr)), ex.pins_of(prims, l)) for l in leaves]
 
 
+SIDE_OPS = ("other_problem", "describe", "print_assertions", "print_statistics", "print_solution")
+
+
+def tasks_of_program(program):
+    return dsl.tasks_of(program)
+
+
 def run_history(program, history, solver_kw=None, choices=None, leaves=None, unknown_at=(), costs=None, default_cost=0.0,
                 steer=False):
     """Execute one history on a fresh solver. Returns (observations, env, solver, built)."""
@@ -109,6 +116,19 @@ def run_history(program, history, solver_kw=None, choices=None, leaves=None, unk
                             o = {"ev": ev, "kind": "none", "bytes": os.path.getsize(path)}
                         finally:
                             os.unlink(path)
+                    elif ev[0] in SIDE_OPS:
+                        # activities that must not touch what the solver knows: a read-only report of the solver,
+                        # or another problem being declared in the same interpreter
+                        if ev[0] == "other_problem":
+                            first = tasks_of_program(program)[0]["args"]["name"] if tasks_of_program(program) else "a"
+                            ps.SchedulingProblem(name="other_problem_declared_meanwhile")
+                            ps.FixedDurationTask(name=first, duration=1)
+                        elif ev[0] == "describe":
+                            with boot.no_fd2(fds=(1, 2)):  # (z3 writes the parameter help on the C-level stdout)
+                                solver.get_parameters_description()
+                        else:
+                            getattr(solver, ev[0])()
+                        o = {"ev": ev, "kind": "none"}
                     elif ev[0] == "solve":
                         r = solver.solve()
                         o = _obs(program, ev, r)
@@ -156,6 +176,7 @@ class Protocol:
         self.cur_h = None
         self.returned = []
         self.has_model = False
+        self.inited = False
 
     def allowed(self):
         out = []
@@ -170,6 +191,17 @@ class Protocol:
     def step(self, o):
         """Judge one observation; returns None if allowed, else a short reason."""
         ev = o["ev"]
+        if ev[0] in SIDE_OPS:
+            # no effect on the protocol state. Reports of a solver that has nothing to report yet may refuse
+            # (get_parameters_description documents an AssertionError before initialisation; the print_* helpers
+            # are unspecified there); once initialised / once a solution exists they must simply work
+            if o["kind"] == "raise":
+                ready = self.inited and (ev[0] != "print_solution" or self.has_model)
+                if ev[0] == "other_problem" or ready:
+                    return f"{ev[0]} raised {o['exc']}: {o['msg']}"
+            return None
+        if ev[0] in ("initialize", "export", "solve") or (ev[0] in ("another", "another_for") and self.has_model):
+            self.inited = True
         if ev[0] in ("initialize", "export"):
             if o["kind"] != "none":
                 return f"{ev[0]} -> {o['kind']} {o.get('exc', '')}"
